@@ -50,8 +50,26 @@ const c = await load(spec.client);
 const s = await load(spec.server);
 emit({ op: "load", client: c.res, server: s.res });
 
+// ServerOptions for the emitted routes, from an op's `opts`:
+//   hook: "catch_all" — an onError hook written against the documented contract (it is handed the errors
+//         of the handler and always answers): status / header / body of its own;
+//   validate: [violations] — a validateRequest hook that reports these violations for every request
+function buildOptions(o) {
+  if (!o) return undefined;
+  const options = {};
+  if (o.hook === "catch_all") {
+    options.onError = (err, _req) =>
+      new Response(JSON.stringify({ hook: "catch_all", message: err instanceof Error ? err.message : String(err) }), {
+        status: o.hook_status ?? 503,
+        headers: { "Content-Type": "application/json", "X-Hook": "1" },
+      });
+  }
+  if (o.validate) options.validateRequest = (_m, _body) => o.validate;
+  return options;
+}
+
 // all routes of the server module, with a recording scripted handler
-function buildRoutes(script, calls) {
+function buildRoutes(script, calls, opts) {
   const routes = [];
   for (const name of Object.keys(s.mod)) {
     const m = /^create(\w+)Routes$/.exec(name);
@@ -61,10 +79,11 @@ function buildRoutes(script, calls) {
       get: (_t, rpc) => async (ctx, req) => {
         calls.push({ svc, rpc: String(rpc), arg: req, path_params: ctx?.pathParams, ctx_headers: ctx?.headers });
         if (script?.kind === "throw") throw new Error(script.message ?? "scripted failure");
+        if (script?.kind === "throw_validation") throw new s.mod.ValidationError(script.violations ?? []);
         return script?.resp ?? {};
       },
     });
-    for (const r of s.mod[name](handler)) routes.push({ svc, route: r });
+    for (const r of s.mod[name](handler, buildOptions(opts))) routes.push({ svc, route: r });
   }
   return routes;
 }
@@ -158,7 +177,7 @@ async function tsServe(op) {
   const out = { op: op.op, id: op.id };
   if (!s.mod) return { ...out, skipped: "server_not_loaded" };
   const calls = [];
-  const routes = buildRoutes(op.handler, calls);
+  const routes = buildRoutes(op.handler, calls, op.opts);
   const init = { method: op.method, headers: new Headers() };
   for (const [k, v] of op.headers ?? []) init.headers.append(k, v);
   if (op.body != null && op.body !== "" && op.method !== "GET" && op.method !== "HEAD") init.body = op.body;
